@@ -246,7 +246,8 @@ private:
     void read_rle_data( const View_Dst& view )
     {
         targa_depth::type bytes_per_pixel = this->_info._bits_per_pixel / 8;
-        size_t image_size = this->_info._width * this->_info._height * bytes_per_pixel;
+        // in size_t: the dimensions are 16 bit wide, their product with the pixel size does not fit the int they promote to
+        size_t image_size = static_cast< size_t >( this->_info._width ) * this->_info._height * bytes_per_pixel;
         byte_vector_t image_data( image_size );
 
         this->_io_dev.seek( static_cast< long >( this->_info._offset ));
